@@ -227,11 +227,18 @@ func genThrottle(r *prng.R, n int) []string {
 	t0 := t0base + prng.Pick(r, subSecond)
 	ty := prng.Pick(r, []string{"rel", "rel", "rel", "abs", "abs", "undef"})
 	sts := prng.Pick(r, []string{"429", "429,503", "429,503", ""})
-	hdr := prng.Pick(r, []string{"Retry-After", "Retry-After", "retry-after", "X-RA", "x-ra"})
+	// header names over the whole RFC 7230 token alphabet (providers do announce limits in x_ratelimit_reset-like names)
+	hdr := prng.Pick(r, []string{"Retry-After", "Retry-After", "retry-after", "X-RA", "x-ra", "x_ratelimit_reset_after",
+		"ratelimit.reset", "x-ra!#$%&'*+.^_`|~0"})
+	// where the remedy configuration comes from (production loader / persisted copy)
+	src := prng.Pick(r, []string{"", "", " src=struct", " src=yaml", " src=yaml", " src=persisted"})
 	// names under which the header may arrive: the configured one, its lower/upper-case forms, the canonical form
 	arriving := []string{hdr, strings.ToLower(hdr), strings.ToUpper(hdr), http.CanonicalHeaderKey(hdr)}
 	caseMix := r.Chance(60)
-	tl := &timeline{r: r, now: t0, ops: []string{fmt.Sprintf("cfg throttle t0=%d type=%s statuses=%s hdr=%s", t0, ty, proto.Enc(sts), hdr)}}
+	tl := &timeline{r: r, now: t0, ops: []string{fmt.Sprintf("cfg throttle t0=%d type=%s statuses=%s hdr=%s%s", t0, ty, proto.Enc(sts), proto.Enc(hdr), src)}}
+	if src == " src=persisted" && n > 8 {
+		n = 8 // today the persisted copy is refused: the rest of the case only checks that nothing is configured
+	}
 	methods := []string{"GET", "POST"}
 	urls := []string{"a.com/x", "a.com/y"}
 	if r.Chance(50) {
@@ -277,7 +284,7 @@ func genThrottle(r *prng.R, n int) []string {
 			}
 			extra := ""
 			if caseMix && r.Chance(50) {
-				extra += " hn=" + prng.Pick(r, arriving)
+				extra += " hn=" + proto.Enc(prng.Pick(r, arriving))
 			}
 			if caseMix && r.Chance(35) {
 				extra += " via=wire"
